@@ -39,6 +39,45 @@ def sample_obs(kind, B, g):
     return g.uniform(-1, 1, (B, OBS_DIM)).astype(np.float32)
 
 
+def snap(x):
+    """deep numpy copy of what a caller hands to the code under test (arrays, tensors, dicts, lists)"""
+    if isinstance(x, dict):
+        return {k: snap(v) for k, v in x.items()}
+    if isinstance(x, (list, tuple)):
+        return [snap(v) for v in x]
+    if isinstance(x, torch.Tensor):
+        return x.detach().cpu().numpy().copy()
+    if isinstance(x, np.ndarray):
+        return x.copy()
+    return x
+
+
+def unchanged(x, s0):
+    if isinstance(x, dict):
+        return list(x) == list(s0) and all(unchanged(x[k], s0[k]) for k in x)
+    if isinstance(x, (list, tuple)):
+        return len(x) == len(s0) and all(unchanged(a, b) for a, b in zip(x, s0))
+    if isinstance(x, torch.Tensor):
+        x = x.detach().cpu().numpy()
+    if isinstance(x, np.ndarray):
+        return x.dtype == s0.dtype and x.shape == s0.shape and bool(np.array_equal(x, s0, equal_nan=True))
+    return x == s0
+
+
+class ArgWatch:
+    """'arguments are not modified': remembers what was handed to the code under test and reports what it changed"""
+
+    def __init__(self):
+        self.items = []
+
+    def give(self, name, x):
+        self.items.append((name, x, snap(x)))
+        return x
+
+    def modified(self):
+        return [n for n, x, s0 in self.items if not unchanged(x, s0)]
+
+
 def to_net(kind, obs):
     """what StochasticActor.forward expects: the algorithm-side preprocessing of a raw batch"""
     if kind in (None, "vector"):
@@ -57,7 +96,8 @@ def gym_space(sp):
         return spaces.MultiDiscrete(sp["nvec"])
     if k == "multibinary":
         return spaces.MultiBinary(sp["n"])
-    return spaces.Box(np.array(sp["low"], dtype=np.float32), np.array(sp["high"], dtype=np.float32))
+    dt = np.float64 if sp.get("dtype") == "float64" else np.float32      # bounds given in another numeric type
+    return spaces.Box(np.array(sp["low"], dtype=dt), np.array(sp["high"], dtype=dt), dtype=dt)
 
 
 def coq_space(sp):
@@ -176,9 +216,9 @@ def ref_logprob_row(sp, squash, lg, log_std, a, u=None):
             seg = lg[off:off + n]
             tot += seg[int(ai)] - _lse(seg)
             off += n
-        return tot, 0.0
+        return tot, sum(E.lse_slack(lg[o:o + n]) for o, n in zip(np.cumsum([0] + segments(sp)[:-1]).tolist(), segments(sp)))
     if k == "multibinary":
-        return float(sum(x * l - (max(l, 0.0) + math.log1p(math.exp(-abs(l)))) for l, x in zip(lg, a))), 0.0
+        return float(sum(x * l - (max(l, 0.0) + math.log1p(math.exp(-abs(l)))) for l, x in zip(lg, a))), float(2.4e-7 * np.sum(np.where(np.abs(lg) < 1e7, np.abs(lg), 0.0)))
     sig = np.exp(np.array(log_std, dtype=np.float64))
     a = np.array(a, dtype=np.float64)
     if squash:
@@ -347,6 +387,29 @@ class C16(vlib.Driver):
                                       "B": rng.choice([2, 3, 4]), "seed": rng.randrange(10 ** 6), "logit_mode": "net",
                                       "std_init": rng.choice([0.0, 0.5]), "std_perturb": True,
                                       "mask_kind": rng.choice(["partial", "single"]) if masked else "none", "partial_cfg": False, "prep": [prep]})
+            # round-3 classes: in-place edited / other-dtype stored actions, another policy used in between (shared handler objects),
+            # a raising call caught by the caller followed by further use, learn() called again on the same rollout
+            for sp in self.space_grid(rng, tier):
+                box = sp["kind"] == "box"
+                for twist in ("interleave", "after_raise", "dtype", "edit_in_place"):
+                    if twist == "edit_in_place" and not box:
+                        continue
+                    for flag in (False, True):
+                        squash, masked = (flag if box else False), ((not box) and flag)
+                        api, scen = rng.choice([("actor", "stored"), ("actor", "stored"), ("ppo", "ppo_eval")]) if twist == "dtype" else ("actor", "stored")
+                        cases.append({"api": api, "scenario": scen, "variant": "other", "space": sp, "squash": squash, "masked": masked,
+                                      "B": rng.choice([2, 3, 4]), "seed": rng.randrange(10 ** 6), "logit_mode": rng.choice(["net", "scaled"]),
+                                      "std_init": rng.choice([0.0, 0.5]), "std_perturb": True, "mask_kind": "partial" if masked else "none",
+                                      "partial_cfg": False, "twist": twist})
+                for api, scen in (("actor", "fresh"), ("actor", "stored"), ("ppo", "ppo_get")):
+                    sp2 = dict(sp, dtype="float64") if (box and scen != "stored") else sp
+                    cases.append({"api": api, "scenario": scen, "variant": "other", "space": sp2, "squash": box and rng.random() < 0.5, "masked": not box,
+                                  "B": rng.choice([2, 3]), "seed": rng.randrange(10 ** 6), "logit_mode": "huge", "std_init": 0.0, "std_perturb": False,
+                                  "mask_kind": "partial" if not box else "none", "partial_cfg": False,
+                                  "obs_dtype": "float64" if api == "ppo" else None})
+                cases.append({"api": "ppo", "scenario": "ppo_learn", "variant": "", "space": sp, "squash": box and rng.random() < 0.5, "masked": False,
+                              "B": 4, "T": 2, "E": 2, "seed": rng.randrange(10 ** 6), "logit_mode": "net", "std_init": 0.5, "std_perturb": True,
+                              "mask_kind": "none", "partial_cfg": False, "learn_twice": True})
             # extreme but legal standard deviations (e^-25 ... e^5): from the constructor argument and as a "trained" parameter, per-dimension mixes
             for sp in self.space_grid(rng, tier):
                 if sp["kind"] != "box":
@@ -427,9 +490,11 @@ class C16(vlib.Driver):
             if mode == "scaled":
                 lin.weight.mul_(float(g.choice([4.0, 12.0])))
                 lin.bias.add_(torch.as_tensor(g.normal(0, 2, lin.bias.shape), dtype=torch.float32))
-            elif mode in ("bias", "ties"):
+            elif mode in ("bias", "ties", "huge"):
                 lin.weight.zero_()
                 vals = g.choice([-20.0, -3.0, -1.0, 0.0, 0.5, 2.0, 15.0], size=lin.bias.shape[0])
+                if mode == "huge":      # extreme but legal magnitudes of the network output
+                    vals = g.choice([-1e4, -1e3, 0.0, 1e3, 1e4], size=lin.bias.shape[0])
                 if mode == "ties":
                     vals = np.full(lin.bias.shape[0], float(g.choice([0.0, 1.5])))
                 lin.bias.copy_(torch.as_tensor(vals, dtype=torch.float32))
@@ -507,6 +572,8 @@ class C16(vlib.Driver):
         D = flatdim(sp)
         okind = case.get("obs_kind", "vector")
         obs1 = sample_obs(okind, B, g)
+        if case.get("obs_dtype") == "float64" and okind == "vector":      # float64 observations (values float32 cannot represent exactly)
+            obs1 = obs1.astype(np.float64) + 1e-9
         obs2 = obs1 if case["variant"] != "other" else sample_obs(okind, B, g)
         T_ = lambda o: to_net(okind, o)
         m1 = self.make_mask(sp, case["mask_kind"], B, g) if case["masked"] else None
@@ -518,7 +585,7 @@ class C16(vlib.Driver):
                 return None
             if case.get("mask_fmt") == "list":
                 return [np.array(r) for r in m]
-            return [m, m.astype(bool), torch.as_tensor(m)][(case["seed"] + k) % 3]
+            return [m, m.astype(bool), torch.as_tensor(m), m.astype(np.float32), m.astype(np.uint8)][(case["seed"] + k) % 5]
         if box:
             env["log_std"] = rows2(actor.head_net.log_std, 1)
             env["low"], env["high"] = [list(map(float, sp["low"]))], [list(map(float, sp["high"]))]
@@ -551,6 +618,8 @@ class C16(vlib.Driver):
         except Exception as e:
             if case.get("mask_fmt") == "list" and case["masked"]:      # the code under test raised on a list-valued mask
                 return {"env": env, "out": {}, "raised": f"{type(e).__name__}: {e}"}
+            if case.get("twist") in ("after_raise", "interleave", "dtype", "edit_in_place"):      # legal use of the API that raised
+                return {"env": env, "out": {}, "raised": f"{type(e).__name__}: {e}"}
             raise
 
     def _observe(self, case, agent, actor, tap_cls, ctx):
@@ -560,9 +629,11 @@ class C16(vlib.Driver):
         env, out, hit = ctx["env"], ctx["out"], False
         fmt, T_, m1, m2, obs1, obs2 = ctx["fmt"], ctx["T_"], ctx["m1"], ctx["m2"], ctx["obs1"], ctx["obs2"]
         draws_or, logits_or, unscale = ctx["draws_or"], ctx["logits_or"], ctx["unscale"]
+        W = ArgWatch()
+        twist = case.get("twist")
         with tap_cls(actor) as tap, torch.no_grad():
             if scen == "fresh":
-                a, lp, ent = actor(T_(obs1), fmt(m1, 0))
+                a, lp, ent = actor(W.give("obs", T_(obs1)), W.give("mask", fmt(m1, 0)))
                 env["logit"] = logits_or(tap, 0, obs1)
                 au = unscale(a) if sq else a
                 env["sampled"] = draws_or(tap, 0, au)
@@ -587,10 +658,27 @@ class C16(vlib.Driver):
                 out["lp2"] = f64(lp2).reshape(-1).tolist()
             elif scen == "stored":
                 latent = actor.extract_features(T_(obs1))
-                a, _, _ = actor.head_net.forward(latent, fmt(m1, 0))        # what a rollout stores (PPO: forward_head)
+                a, _, _ = actor.head_net.forward(latent, W.give("mask1", fmt(m1, 0)))        # what a rollout stores (PPO: forward_head)
                 stored = a.clone()
-                a2, _, _ = actor(T_(obs2), fmt(m2, 1))
-                lp2 = actor.action_log_prob(stored)
+                if twist == "edit_in_place" and box:        # the caller edits the very tensor forward() returned (no copy)
+                    stored = a
+                    stored.mul_(0.5)
+                if twist == "dtype" and not sq:             # a rollout buffer that keeps actions in another numeric type
+                    stored = stored.double() if (box or sp["kind"] == "multibinary") else stored.to(torch.int32)
+                a2, _, _ = actor(W.give("obs2", T_(obs2)), W.give("mask2", fmt(m2, 1)))
+                if twist == "interleave":                   # another policy of the same kind is used in between (shared handler objects)
+                    other = StochasticActor(obs_space_of(case.get("obs_kind", "vector")), gym_space(sp), squash_output=case["squash"],
+                                            action_std_init=0.3, head_config={"hidden_size": [8]})
+                    other(T_(obs2), fmt(m2, 0))
+                    other.action_log_prob(other.head_net.forward(other.extract_features(T_(obs1)), fmt(m1, 0))[0])
+                if twist == "after_raise":                  # a call that raises (malformed mask), caught by the caller; the actor is used further
+                    try:
+                        actor(T_(obs2), np.ones((B, flatdim(sp) + 1), dtype=np.int64))
+                        out["bad_mask_accepted"] = True
+                    except Exception:
+                        pass
+                lp2 = actor.action_log_prob(W.give("stored-action", stored))
+                out["lp2_again"] = f64(actor.action_log_prob(stored)).reshape(-1).tolist()
                 env["logit"] = logits_or(tap, 0, obs1)
                 env["logit2"] = logits_or(tap, 1, obs2)
                 env["sampled"] = draws_or(tap, 0, a)
@@ -602,7 +690,7 @@ class C16(vlib.Driver):
                            and torch.equal(torch.tanh(tap.draws[1]), stored))
             elif scen in ("ppo_get", "ppo_eval"):
                 agent.set_training_mode(True) if hasattr(agent, "set_training_mode") else None
-                a, lp, ent, _ = agent.get_action(obs1, action_mask=m1)
+                a, lp, ent, _ = agent.get_action(W.give("obs", obs1), action_mask=W.give("mask", m1))
                 env["logit"] = logits_or(tap, 0, obs1)
                 a_t = np.asarray(a).reshape(B, -1) if sp["kind"] != "discrete" else np.asarray(a).reshape(B)
                 env["sampled"] = draws_or(tap, 0, a_t)
@@ -614,7 +702,9 @@ class C16(vlib.Driver):
                 else:
                     stored = torch.as_tensor(a_t)
                     out["lp_rollout"] = f64(lp).reshape(-1).tolist()
-                    lp2, ent2, _ = agent.evaluate_actions(obs2, stored)
+                    if twist == "dtype" and not sq:
+                        stored = stored.double() if (box or sp["kind"] == "multibinary") else stored.to(torch.int32)
+                    lp2, ent2, _ = agent.evaluate_actions(W.give("obs2", obs2), W.give("stored-action", stored))
                     env["logit2"] = logits_or(tap, 1, obs2)
                     nd = len(tap.draws)
                     env["sampled2"] = rows2(tap.draws[-1], B) if (sq and nd >= 2) else [[0.0] * ncomp(sp)] * B
@@ -626,6 +716,7 @@ class C16(vlib.Driver):
                                and torch.equal(torch.tanh(tap.draws[-1]), stored))
             else:
                 raise ValueError(scen)
+        out["args_modified"] = W.modified()
         return {"env": env, "out": out, "hit": hit, "prep": self._prep_info}
 
     def tweak_head(self, actor, case, g):
@@ -683,14 +774,20 @@ class C16(vlib.Driver):
                 return out
             agent.evaluate_actions = wrapped
             try:
-                agent.learn((S, A, LP, R, D, V, nxt if Ee > 1 else nxt[0], np.zeros(Ee) if Ee > 1 else 0.0))
+                exp = (S, A, LP, R, D, V, nxt if Ee > 1 else nxt[0], np.zeros(Ee) if Ee > 1 else 0.0)
+                exp0 = snap(list(exp))
+                agent.learn(exp)
+                first_n = len(calls)
+                if case.get("learn_twice"):      # the training function called again on the same rollout (a second epoch of the caller)
+                    agent.learn(exp)
+                exp_changed = not unchanged(list(exp), exp0)
             except Exception as e:      # the code under test raised: reported by the oracle, with the input
                 return {"env": {}, "out": {}, "raised": f"{type(e).__name__}: {e}"}
             finally:
                 del agent.evaluate_actions
         if not calls:
             raise RuntimeError("learn() did not call evaluate_actions")
-        c = calls[0]
+        c = calls[first_n] if (case.get("learn_twice") and len(calls) > first_n) else calls[0]
         mb = c["lp"].shape[0] if c["lp"].dim() > 0 else 1
         acts = f64(c["actions"])
         lg = c["logits"]
@@ -704,7 +801,8 @@ class C16(vlib.Driver):
             env["log_std"] = rows2(c["log_std"], 1)                # as it was during the call (the optimizer step changes it)
             env["low"], env["high"] = [list(map(float, sp["low"]))], [list(map(float, sp["high"]))]
         out = {"lp2": f64(c["lp"]).reshape(-1).tolist(), "ent2": f64(c["ent"]).reshape(-1).tolist(),
-               "lp_shape": list(c["lp"].shape), "rows": int(lg.shape[0]), "actions_shape": list(c["actions"].shape)}
+               "lp_shape": list(c["lp"].shape), "rows": int(lg.shape[0]), "actions_shape": list(c["actions"].shape),
+               "args_modified": ["the rollout handed to learn()"] if exp_changed else []}
         hit = False
         if sq and c["draw"] is not None:
             env["sampled2"] = rows2(c["draw"], lg.shape[0])
@@ -793,13 +891,21 @@ class C16(vlib.Driver):
                         "ids": [[group[i], int(i.rsplit("_", 1)[1])] for i in IDS],
                         "infos": [[[group[i], int(i.rsplit("_", 1)[1])], code(infos[i]["action_mask"])] for i in infos],
                         # get_action zips the VALUES positionally with the actors: position k belongs to policy k
-                        "rows": [[k, [code(r) for r in np.asarray(v)]] for k, v in enumerate(vals) if v is not None]}
+                        "rows": [[k, [code(r) for r in np.asarray(v)]] for k, v in enumerate(vals) if v is not None],
+                        # row level: what apply_mask's .view(logits.shape) makes of the stack, one number per (agent, env) row
+                        "infos_rows": [[[group[i], int(i.rsplit("_", 1)[1])], [code(r) for r in np.asarray(infos[i]["action_mask"]).reshape(-1, flatdim(sp))]]
+                                       for i in infos],
+                        "flat_rows": [[k, [code(r) for r in np.asarray(v).reshape(-1, flatdim(sp))]] for k, v in enumerate(vals) if v is not None]}
                 except Exception as e:
                     orders["plumbing"] = {"error": f"{type(e).__name__}: {e}"}
+            W = ArgWatch()
+            W.give("observations", ko)
+            W.give("infos", infos)
             try:
                 a, lp, ent, _ = agent.get_action(ko, infos)
             except Exception as e:      # the code under test raised: reported by the oracle, with the input
                 return {"env": env, "out": {}, "raised": f"{type(e).__name__}: {e}", "orders": orders}
+            out["args_modified"] = W.modified()
             env["logit"] = [r for i in IDS for r in lgs[i]]
             if masks is not None:
                 env["mask"] = [r for i in IDS for r in masks[i].tolist()]
@@ -945,6 +1051,10 @@ class C16(vlib.Driver):
             t += (" && check_ippo_masks [" + "; ".join(ag(a) for a in pl["ids"]) + "] ["
                   + "; ".join(f"({ag(a)}, {m}%N)" for a, m in pl["infos"]) + "] ["
                   + "; ".join(f"({k}%nat, [" + "; ".join(f"{r}%N" for r in rows) + "])" for k, rows in pl["rows"]) + "]")
+            if "flat_rows" in pl:
+                t += (" && check_ippo_rows [" + "; ".join(ag(a) for a in pl["ids"]) + "] ["
+                      + "; ".join(f"({ag(a)}, [" + "; ".join(f"{m}%N" for m in ms) + "])" for a, ms in pl["infos_rows"]) + "] ["
+                      + "; ".join(f"({k}%nat, [" + "; ".join(f"{r}%N" for r in rows) + "])" for k, rows in pl["flat_rows"]) + "]")
         return t
 
     def support_term(self, case, obs):
@@ -994,6 +1104,12 @@ class C16(vlib.Driver):
         if pi and not pi["log_std_kept"]:
             V("params-kept", f"after {pi['done']} the learned log_std {pi['log_std_before']} became {ls}: the policy's distribution "
               "parameters must survive architecture mutations and clone()")
+        if out.get("args_modified"):
+            V("args-unmodified", f"the call changed what the caller handed in: {out['args_modified']}")
+        if "lp2_again" in out and out["lp2_again"] != out.get("lp2"):
+            V("repeatable", f"action_log_prob of the same tensor twice in a row: {out.get('lp2')} then {out['lp2_again']}")
+        if out.get("bad_mask_accepted"):
+            V("bad-mask", "a mask with one column too many was accepted")
         for name in ("lp", "lp2"):
             if name in out and len(out[name]) != B:
                 V("shape", f"{name} has {len(out[name])} entries for a batch of {B} rows (one log-probability per row expected)")
@@ -1054,7 +1170,9 @@ class C16(vlib.Driver):
                 continue
             for b in range(B):
                 want = ref_entropy_row(sp, lg[b], ls)
-                if not close(want, out[name][b]):
+                esl = (sum(E.lse_slack(lg[b][o:o + n]) for o, n in zip(np.cumsum([0] + segments(sp)[:-1]).tolist(), segments(sp)))
+                       if segments(sp) else (float(2.4e-7 * np.sum(np.where(np.abs(lg[b]) < 1e7, np.abs(lg[b]), 0.0))) if sp["kind"] == "multibinary" else 0.0))
+                if not close(want, out[name][b], esl):
                     V("entropy", f"row {b}: reported entropy {out[name][b]!r}, definition gives {want!r} (logits {lg[b].tolist()}, log_std {ls})")
                     break
         # support
@@ -1093,7 +1211,7 @@ class C16(vlib.Driver):
     # ---------- evidence helpers
     def key(self, case):
         k = {x: case.get(x) for x in ("api", "scenario", "variant", "space", "squash", "masked", "B", "logit_mode", "std_init", "mask_kind", "seed", "prep",
-                                      "ids", "okey", "ikey", "obs_kind", "mask_fmt", "latent_dim", "log_std_set")}
+                                      "ids", "okey", "ikey", "obs_kind", "mask_fmt", "latent_dim", "log_std_set", "twist", "learn_twice", "obs_dtype")}
         return super().key(k)
 
     def nontrivial(self, case, obs):
@@ -1113,6 +1231,11 @@ class C16(vlib.Driver):
         if case.get("ids"):
             labs += [f"obs-key-order={case.get('okey')}", f"infos-key-order={case.get('ikey') if case['masked'] else 'no-infos'}"]
         labs.append(f"obs-kind={case.get('obs_kind', 'vector')}")
+        if sp.get("dtype") == "float64":
+            labs.append("box-bounds-dtype=float64")
+        if case.get("obs_dtype"):
+            labs.append("obs-dtype=float64")
+        labs.append(f"twist={case.get('twist') or ('learn-twice' if case.get('learn_twice') else 'none')}")
         if sp["kind"] == "box" and obs.get("env", {}).get("log_std"):
             ls = obs["env"]["log_std"][0]
             labs.append("log_std-range=" + ("extreme(<-4 or >2)" if (min(ls) < -4 or max(ls) > 2) else "moderate"))
@@ -1121,7 +1244,7 @@ class C16(vlib.Driver):
         if len(case.get("prep") or []) >= 3:
             labs.append("prep-chain>=3")
         if case["masked"] and case["api"] in ("actor", "ppo"):
-            labs.append(f"mask-container={'list' if case.get('mask_fmt') == 'list' else ['int-array', 'bool-array', 'tensor'][case['seed'] % 3]}")
+            labs.append(f"mask-container={'list' if case.get('mask_fmt') == 'list' else ['int-array', 'bool-array', 'tensor', 'float32-array', 'uint8-array'][case['seed'] % 5]}")
         for q in case.get("prep") or []:
             labs.append(f"prepared-by={q}")
         if not case.get("prep"):
